@@ -18,9 +18,16 @@ Rec == ndJsonDeserialize(IOEnv.TRACE)
 JudgeCmp(r) == /\ Len(r.a) = r.n /\ Len(r.b) = r.n
                /\ IF r.f = "memcmp" THEN MemcmpOk(r.a, r.b, r.n, r.ret) ELSE BcmpOk(r.a, r.b, r.n, r.ret)
 
+\* a guarded copy (probe mode "guard": the source ends in front of / starts behind an unreadable page): the line
+\* carries the source bytes read BEFORE the call and the destination bytes after it - every destination cell holds
+\* the ORIGINAL value of its source cell (Memmove restricted to the destination range, any overlap), ret = dest
+IsGuard(r) == "G" \in DOMAIN r
+JudgeGuardCopy(r) == Len(r.src) = r.n /\ r.dst = r.src /\ r.ret = 0
+
 \* <<accepted, the two ways of judging agree>> - each evaluated once per record
 Verdict(r) ==
     IF r.f \in {"memcmp", "bcmp"} THEN <<JudgeCmp(r), TRUE>>
+    ELSE IF IsGuard(r) THEN <<JudgeGuardCopy(r), TRUE>>
     ELSE IF ~Pre(r) \/ r.ret # r.d THEN <<FALSE, TRUE>>
     ELSE IF r.L <= CellLimit
          THEN LET c == CellJudge(r)
